@@ -108,7 +108,7 @@ impl Property for C03 {
     fn fixed_cases(&self, tier: Tier, _known: &Known) -> Vec<Value> {
         // count-field boundaries (expensive: a few per run)
         let mut out = vec![];
-        let counts: &[usize] = match tier { Tier::Quick => &[255, 256, 65535, 65536], Tier::Thorough => &[255, 256, 257, 32767, 32768, 65535, 65536, 65537, 70000] };
+        let counts: &[usize] = match tier { Tier::Quick => &[255, 256, 65535, 65536], Tier::Thorough => &[255, 256, 257, 65535, 65536, 65537] };
         for (fmt, game) in [(Fmt::Std, "th08"), (Fmt::Std, "th12"), (Fmt::Anm, "th12"), (Fmt::Msg, "th08"), (Fmt::Mission, "th095"), (Fmt::Ecl, "th07"), (Fmt::Ecl, "th06")] {
             for &n in counts { out.push(json!({"kind": "many", "fmt": fmt.name(), "game": game, "count": n, "seed": n as u32 + 7})); }
         }
